@@ -878,13 +878,37 @@ def _monitor_chunk(args):
     cases, tmp = args
     from pathlib import Path
 
+    import resource
+    import signal
+
+    class _Timeout(BaseException):
+        pass
+
+    def _alarm(*a):
+        raise _Timeout()
+
+    # an operation that runs away on an odd input (time or memory) is skipped, it must not take the worker down
+    try:
+        resource.setrlimit(resource.RLIMIT_AS, (5 * 2**30, 5 * 2**30))
+    except (ValueError, OSError):
+        pass
+    signal.signal(signal.SIGALRM, _alarm)
     out = []
     for case in cases:
+        signal.alarm(25)
         try:
             rec, viol = M.run_case(case, Path(tmp))
+        except _Timeout:
+            out.append((case, {"info": {}, "trace": [("<case>", "skipped:timeout")]}, []))
+            continue
+        except MemoryError:
+            out.append((case, {"info": {}, "trace": [("<case>", "skipped:memory")]}, []))
+            continue
         except Exception as ex:  # noqa: BLE001  (generator trouble: not a finding)
             out.append((case, {"info": {}, "trace": [("<case>", "error:" + type(ex).__name__)]}, []))
             continue
+        finally:
+            signal.alarm(0)
         out.append((case, rec, viol))
     return out
 
@@ -899,6 +923,11 @@ def monitor_cases(ctx):
         for shape in (M.SHAPES[::2] if chart and ctx.quick else M.SHAPES):
             for _ in range(1 if chart and ctx.quick else reps):
                 cases.append({"seed": rng.randrange(2**31), "shape": list(shape), "ops": [name]})
+    for dname in M.directed_triangles():      # notes/HARDENING.md families A-L: every operation once on each
+        for name in names:
+            if name.startswith("plot.plot_") and (ctx.quick or dname.startswith("F:empty")):
+                continue
+            cases.append({"seed": rng.randrange(2**31), "directed": dname, "ops": [name]})
     nseq = 700 if ctx.quick else 6000
     maxlen = 6 if ctx.quick else 12
     for _ in range(nseq):                    # random operation sequences, every position watched
@@ -1133,7 +1162,7 @@ def replay(ctx, data):
     if mode == "monitor":
         tmp = ctx.build / "tmp"
         tmp.mkdir(parents=True, exist_ok=True)
-        case = {"seed": data["seed"], "shape": data.get("shape"), "ops": data["ops"]}  # ops are explicit
+        case = {"seed": data["seed"], "shape": data.get("shape"), "ops": data["ops"], "directed": data.get("directed")}
         rec, viol = M.run_case(case, Path(tmp))
         print("trace:", rec["trace"])
         for v in viol:
